@@ -40,7 +40,7 @@ def judge(chk, cls, spec, res, expect_last, init, mech, provably_alive=False, mu
     is_thread = 'Thread' in cls
     for e in evs(res, 'state_alive'):
         if e['alive'] and not is_thread and (provably_alive or e['at_point']) and e['value']['repr'] != rv(init):
-            probs.append('alive-parent-sees-%s-not-init' % e['value']['repr'][:20])
+            probs.append('alive-parent-sees-other-than-init(%s)' % e['value']['repr'][:20])
         if e['alive'] and not is_thread:
             chk.count('alive_state_reads')
     for name in ('state_set_from_parent', 'state_set_from_parent_dead'):
@@ -71,7 +71,7 @@ def judge(chk, cls, spec, res, expect_last, init, mech, provably_alive=False, mu
             probs.append('next-incarnation-no-result')
             break
         if val[1] != prev:
-            probs.append('next-incarnation-starts-from-%s-not-last-synchronised' % val[1][:20])
+            probs.append('next-incarnation-not-started-from-last-synchronised(%s)' % val[1][:20])
             break
         exp_after = rv(spec['chain_values'][h][-1]) if spec['chain_values'][h] else prev
         if h < len(after) and after[h]['value']['repr'] != exp_after:
@@ -79,7 +79,7 @@ def judge(chk, cls, spec, res, expect_last, init, mech, provably_alive=False, mu
             break
         prev = exp_after
     if probs:
-        chk.violation('%s:%s:%s' % (probs[0], kind_of(cls), mech), '%s %s: %s; expected last=%s init=%s; state_first=%s' % (cls, mech, ', '.join(probs), expect_last, rv(init), first[0]['value'] if first else None),
+        chk.violation('%s:%s:%s' % (probs[0].split('(')[0], kind_of(cls), mech), '%s %s: %s; expected last=%s init=%s; state_first=%s' % (cls, mech, ', '.join(probs), expect_last, rv(init), first[0]['value'] if first else None),
                       {'spec': spec, 'state_first': first[:1], 'state_alive': evs(res, 'state_alive'), 'hops': hops, 'after': after, 'observations': dg['observations'][:2], 'point': dg['point'], 'stderr': res['stderr'][-300:]})
     elif len(chk.samples) < 5:
         chk.sample({'cls': cls, 'fault': mech, 'init': rv(init), 'expected_last': expect_last, 'state_first': first[0]['value']['repr'] if first else None, 'hops': [h['value'] for h in hops]})
@@ -176,6 +176,41 @@ def run(tier):
         chk.case((cls, 'terminate', k))
         chk.count('terminate_cases')
         judge(chk, cls, spec, res, rv(vio[-1]), init, 'terminate-inside-work', provably_alive=True)
+    # restart() of a persistent worker that is still busy: restart has to terminate it first; the graceful
+    # terminate lets the child report, so the next incarnation must start from the last value assigned
+    bjobs = []
+    for cls in [c for c in CLASSES if 'Persistent' in c]:
+        for i in range(6 if thorough else 2):
+            init = r.choice(VALUES)
+            values = [r.choice(VALUES) for _ in range(r.choice([1, 2, 3]))]
+            bjobs.append(dict(cls=cls, init_state_json=init, values=values, hops=r.choice([1, 2])))
+
+    def bone(ij):
+        i, sp = ij
+        res = run_case('checks.c16:busy_restart_case', sp, os.path.join(wd, 'b%d' % i), timeout=180)
+        cleanup(res['dir'])
+        return sp, res
+
+    for sp, res in pmap(bone, list(enumerate(bjobs)), 8):
+        chk.case((sp['cls'], 'busy-restart', len(sp['values']), sp['hops'], rv(sp['init_state_json'])))
+        chk.count('busy_restart_cases')
+        hops = [e for e in res['events'] if e.get('ev') == 'busy_hop']
+        if not hops:
+            hangs = [e for e in res['events'] if e.get('ev') == 'hang']
+            chk.inconclusive('busy-restart case incomplete', {'spec': sp, 'stderr': res['stderr'][-400:], 'hangs': hangs[:1]})
+            continue
+        for h in hops:
+            probs = []
+            if h['outcome'] != 'returned':
+                probs.append('restart-%s' % h['outcome'])
+            else:
+                if h['parent_state'] != h['expected']:
+                    probs.append('parent-state-after-restart-not-last-assigned(%s)' % h['parent_state'][:20])
+                if h['seen_by_next'] != h['expected']:
+                    probs.append('next-incarnation-not-started-from-last-synchronised(%s)' % str(h['seen_by_next'])[:20])
+            if probs:
+                chk.violation('%s:%s:busy-restart' % (probs[0].split('(')[0], kind_of(sp['cls'])), '%s restarted while busy (hop %d): %s; expected %s' % (sp['cls'], h['hop'], ', '.join(probs), h['expected']), {'spec': sp, 'hop': h})
+                break
     cleanup(wd)
     chk.assumptions = ['thread kinds are exempt from the "parent sees the initial value while alive" half (shared memory, documented)',
                        'terminate landings inside the reporting code itself are left to C01/C03 (the statement says "in any way that lets it report")',
@@ -201,3 +236,58 @@ def replay(spec):
     import json
     print(json.dumps(spec, indent=1)[:6000])
     return 0
+
+
+def busy_restart_case(spec, log):
+    import logging
+    import time
+    logging.disable(logging.CRITICAL)
+    from vlib import vtargets
+    from vlib.case import Bounded, HANG, Raised
+    from vlib.wcase import get_class
+    bounded = Bounded(log)
+    cls, _ = get_class(spec['cls'])
+    d = spec['dir']
+    server = None
+    kw = {}
+    if 'Remote' in spec['cls']:
+        from pyworkers.remote_server import spawn_server
+        server = spawn_server(('127.0.0.1', 0))
+        kw['host'] = server.addr
+    try:
+        w = cls(vtargets.ret_value, init_state=decode(spec['init_state_json']), **kw)
+        values = spec['values']
+        for hop in range(spec['hops']):
+            md = os.path.join(d, 'm%d' % hop)
+            os.makedirs(md, exist_ok=True)
+            vals = values if hop == 0 else [{'__val__': [hop, 'h']}, hop * 11]
+            w.enqueue(md, vals, 'hang')
+            t0 = time.monotonic()
+            while time.monotonic() - t0 < 10 and not os.path.exists(os.path.join(md, 'hanging')):
+                time.sleep(0.005)
+            time.sleep(0.05)
+            expected = rv(vals[-1])
+            a = {'timeout': 0.3}
+            r = bounded('restart', lambda: w.restart(**a), 60)
+            if r is HANG or isinstance(r, Raised):
+                log.ev('busy_hop', hop=hop, outcome=('hang' if r is HANG else 'raised:' + type(r.exc).__name__), expected=expected)
+                break
+            parent_state = repr(w.user_state)
+            md2 = os.path.join(d, 'p%d' % hop)
+            os.makedirs(md2, exist_ok=True)
+            w.enqueue(md2, [], 'return')
+            v = bounded('next_result', lambda: w.next_result(), 30)
+            seen = v[1] if isinstance(v, list) and len(v) == 3 else repr(getattr(v, 'exc', v))
+            log.ev('busy_hop', hop=hop, outcome='returned', parent_state=parent_state, seen_by_next=seen, expected=expected)
+        return {'ok': True}
+    finally:
+        try:
+            if w.is_alive():
+                w.terminate(timeout=1, **({'force': False} if 'Thread' in spec['cls'] or 'Remote' in spec['cls'] else {}))
+        except BaseException:  # noqa
+            pass
+        if server is not None:
+            try:
+                server.terminate(timeout=1, force=True)
+            except BaseException:  # noqa
+                pass
